@@ -90,12 +90,15 @@ def record_calls(ns, rng, n, tid0=0):
                      hours=hours or [], hours_given=hours is not None)
         elif fn == "daily_volume":
             hours = sorted({rng.randint(0, 23) for _ in range(rng.choice([1, 2, 3, 4]))})
+            distinct = len(hours)
+            if rng.random() < 0.3:
+                hours = hours + [rng.choice(hours)]         # an hour named twice is still one hour of the day
             per_hour = rng.choice([1, 5, 250])
             span_h = rng.choice([24, 72, 24 * 10 + 7, 36, 47, 71])
             src = tb.create_hourly_usage_from_daily_volume_and_list_of_hours(
-                span_quantity(rng, u, span_h), per_hour * len(hours), hours, start, pu)
+                span_quantity(rng, u, span_h), per_hour * distinct, hours, start, pu)
             df = src.value
-            e.update(fn="daily_volume", span=span_h, volume=per_hour * len(hours), per_hour=per_hour, hours=hours)
+            e.update(fn="daily_volume", span=span_h, volume=per_hour * distinct, per_hour=per_hour, hours=hours)
         elif fn == "linear":
             n_h = rng.choice([2, 5, 25, 49])
             v0 = rng.choice([0, 10, 100])
@@ -117,8 +120,14 @@ def record_calls(ns, rng, n, tid0=0):
             days, lo, hi = rng.choice([1, 3]), rng.choice([0, 1]), rng.choice([2, 10])
             df = tb.create_random_hourly_usage_df(days * u.day, lo, hi, start, pu)
             e.update(fn="random", n=24 * days + 1, lo=lo, hi=hi)
+        e["off_lattice"] = False
         if "idx" not in e:
-            e["idx"], e["vals"] = hours_of(df.index), ints(df["value"].values._data, 1, fn)
+            try:
+                e["idx"], e["vals"] = hours_of(df.index), ints(df["value"].values._data, 1, fn)
+            except MachineryError:
+                # the rule gives whole numbers for these arguments: a fraction is an observation, not a harness problem
+                e["idx"], e["vals"] = hours_of(df.index), [int(round(float(x))) for x in df["value"].values._data]
+                e["off_lattice"] = True
         e["unit_out"] = str(df.dtypes.iloc[0].units)
         e["ev"] = "Call"
         events.append(e)
